@@ -2,5 +2,5 @@ SPECIFICATION Spec
 CONSTANTS Devs = {"Dev_C12_ParallelRootCid", "Dev_C12_HandlerSelfRecursion"}
           Cases <- MCSel
           Family = "MDev"
-INVARIANTS TypeOK VisitedSafe VisitedExact DepthShortest FetchedExact LocalExact HandlerCidRight
+INVARIANTS TypeOK VisitedSafe VisitedExact DepthShortest FetchedExact LocalExact HandlerCidRight HandlerOwnFailure
            HandlerCallsRight ProvidedExact ResultRight NoHandlerCrash
